@@ -87,10 +87,10 @@ func interopCase(t *testing.T, r *rig.Rig, g func(string) string) engine.Result 
 		opts = append(opts, oidc.JWTProfileDelegatedSubject("u1"))
 		sub = "u1"
 	}
-	// ---- the helper makes the assertion at eT0-age (+500 ms)
+	// ---- the helper makes the assertion at eT0-age (+100 ms); it is presented at eT0+250 ms
 	var tok string
 	var herr error
-	pan := engine.Bubble(t, eT0.Add(-age).Add(500*time.Millisecond).Sub(engine.Epoch), func() {
+	pan := engine.Bubble(t, eT0.Add(-age).Add(100*time.Millisecond).Sub(engine.Epoch), func() {
 		switch g("helper") {
 		case "signed-assertion":
 			signer, err := client.NewSignerFromPrivateKeyByte(pem, k.kid)
